@@ -3,6 +3,7 @@ use rowan::NodeOrToken;
 
 use super::textspace;
 use crate::fw::*;
+use serde_json::json;
 
 pub struct C02;
 
@@ -53,6 +54,27 @@ pub fn check_total(text: &str) -> Result<(usize, usize, u64), Failure> {
     Ok((ntok, parse.errors().len(), steps))
 }
 
+/// lines that are repeated for the time-scaling family: dense in syntax errors, or valid
+const SCALE_UNITS: [&str; 10] = [
+    "int x = foo(1, 2) { return; }\n",
+    "@ ",
+    "class ; def ; ",
+    ") ] } ",
+    "\"unterminated\n",
+    "def a;\n",
+    "class A<int p = 1> { int x = !add(p, 1); let x = 2; }\n",
+    "/* c */ // d\n",
+    "#ifdef X\ndef hidden;\n#endif\n",
+    "defvar v = [1, 2, 3][0] # \"s\" # $ ;\n",
+];
+
+fn thread_cpu_seconds() -> f64 {
+    let mut ts = libc::timespec { tv_sec: 0, tv_nsec: 0 };
+    // SAFETY: plain syscall filling the struct
+    unsafe { libc::clock_gettime(libc::CLOCK_THREAD_CPUTIME_ID, &mut ts) };
+    ts.tv_sec as f64 + ts.tv_nsec as f64 * 1e-9
+}
+
 impl Property for C02 {
     fn id(&self) -> &'static str {
         "C02"
@@ -61,7 +83,7 @@ impl Property for C02 {
         true
     }
     fn rule(&self) -> String {
-        format!("C01's input space plus: an unterminated string/code block/comment/#ifdef/#else inserted at every token boundary of GRAM programs, 12 nesting shapes (brackets and chained let/if/foreach) at depth 1..250, one token repeated 10^4 times. Oracle: no panic/abort, hook step count <= {WORK_FACTOR}*(tokens+1)+{WORK_CONST}, every error has a message and an in-text char-boundary range. Inputs with scan depth > 256 are skipped (counted). distinct = digest of text; non-trivial = >=1 syntax error, or depth >= 32, or >= 200 tokens")
+        format!("C01's input space plus: an unterminated string/code block/comment/#ifdef/#else inserted at every token boundary of GRAM programs, 12 nesting shapes (brackets and chained let/if/foreach) at depth 1..250, one token repeated 10^4 times. Oracle: no panic/abort, hook step count <= {WORK_FACTOR}*(tokens+1)+{WORK_CONST}, every error has a message and an in-text char-boundary range; family time-scaling: ten lines (dense in syntax errors, or valid) repeated 600 and 9600 times - the processor time of the long parse may be 64 times that of the short one (best of three) or stay under two seconds, in two rounds. Inputs with scan depth > 256 are skipped (counted). distinct = digest of text; non-trivial = >=1 syntax error, or depth >= 32, or >= 200 tokens")
     }
     fn assumptions(&self) -> Vec<String> {
         vec![
@@ -70,9 +92,50 @@ impl Property for C02 {
         ]
     }
     fn families(&self, ctx: &Ctx) -> Vec<Family> {
-        textspace::families(ctx, true)
+        // work the step hook does not see (scans of what has been collected so far, re-allocation, …):
+        // the processor time of one parse of a text 16 times as long, against the short one. First in
+        // the list: the long repetitions further down take hours with a quadratic parser
+        let mut fams = vec![Family::new("time-scaling", SCALE_UNITS.len() as u64, |c, _r, emit| {
+            emit(json!({"kind": "scale", "unit": SCALE_UNITS[c as usize % SCALE_UNITS.len()], "n": 600}));
+        })
+        .exhaustive()];
+        fams.extend(textspace::families(ctx, true));
+        fams
     }
     fn run_case(&self, _ctx: &Ctx, case: &Case) -> Verdict {
+        if case["kind"] == "scale" {
+            let (Some(unit), Some(n)) = (case["unit"].as_str(), case["n"].as_u64()) else { return Verdict::Skip("malformed-case") };
+            let n = (n as usize).clamp(100, 4000);
+            let small = unit.repeat(n);
+            let big = unit.repeat(16 * n);
+            let cpu = |text: &str| -> f64 {
+                let t0 = thread_cpu_seconds();
+                let p = syntax::parse(text);
+                let t1 = thread_cpu_seconds();
+                std::hint::black_box(p.errors().len());
+                t1 - t0
+            };
+            // twice: a slow outlier on a loaded machine is not repeated, a quadratic algorithm is
+            let mut worst_ok = true;
+            let mut seen = Vec::new();
+            for _ in 0..2 {
+                let ts = (0..3).map(|_| cpu(&small)).fold(f64::MAX, f64::min).max(1e-4);
+                let tb = cpu(&big);
+                seen.push((ts, tb));
+                // 16 times the text may cost 64 times the processor time at most - or less than two seconds
+                if !(tb > 64.0 * ts && tb > 2.0) {
+                    worst_ok = false;
+                }
+            }
+            if worst_ok {
+                return Verdict::Fail(Failure::new(
+                    "C02.superlinear-time",
+                    "C02.superlinear-time",
+                    format!("{:?} repeated {n} and {} times: processor time of the parse (short, long) in seconds, two rounds: {seen:?} - more than 64 times as long for 16 times the text", unit, 16 * n),
+                ));
+            }
+            return Verdict::Pass { nontrivial: true, labels: vec!["time scaling"] };
+        }
         if let Some(text) = textspace::flat_text(case) {
             // no nesting at all: parsed on a small stack; the step budget and the error checks apply as usual
             let r = textspace::on_small_stack(move || std::panic::catch_unwind(|| check_total(&text)).map_err(|_| take_panic()));
